@@ -22,6 +22,14 @@ Name(i)       == [k |-> "name", v |-> i, b |-> "", op |-> "", l |-> <<>>, r |-> 
 Neg(e)        == [k |-> "neg", v |-> 0, b |-> "", op |-> "-", l |-> <<e>>, r |-> <<>>]
 Bin(op, x, y) == [k |-> "bin", v |-> 0, b |-> "", op |-> op, l |-> <<x>>, r |-> <<y>>]
 
+\* A literal beyond TLC's 32-bit integers: Big(a, low) denotes
+\*     a * 2^40 + (IF low THEN 2^40 - 1 ELSE 0)
+\* and is written in hexadecimal (a's digits followed by ten F's or ten 0's).
+\* With a >= 2^13 these are the integers (up to 2^64 - 1) that binary floating
+\* point no longer represents exactly.  They are never evaluated on their own:
+\* only quotients of them are, by the exact rules of BigVal / Eval below.
+Big(a, low)   == [k |-> "big", v |-> a, b |-> IF low THEN "F" ELSE "0", op |-> "", l |-> <<>>, r |-> <<>>]
+
 Ops == {"+", "-", "*", "/", "<<", ">>"}
 Bases == {"d", "x", "o"}
 
@@ -40,13 +48,48 @@ D2 == {Bin(o1, Bin(o2, x, y), z) : o1 \in Ops, o2 \in Ops, x \in Small, y \in Sm
       \cup {Neg(Neg(x)) : x \in Small}
 D3 == {Bin(o1, Bin(o2, x, y), Bin(o3, z, w)) : o1 \in Ops, o2 \in Ops, o3 \in Ops,
                                                x \in Tiny, y \in Tiny, z \in Tiny, w \in Tiny}
-AST(d) == IF d = 1 THEN D1 ELSE IF d = 2 THEN D1 \cup D2 ELSE D1 \cup D2 \cup D3
+\* quotients of big numbers: numerators with and without low bits, sums,
+\* differences and multiples of them; denominators are exact multiples of 2^40
+BigAs == {16777215, 1048575, 65535, 8193}
+BigBs == {1, 3, 16, 255, 1048576}
+BigNum == {Big(a, lo) : a \in BigAs, lo \in BOOLEAN}
+          \cup {Bin("-", Big(a, TRUE), Big(c, lo)) : a \in BigAs, c \in {1, 5}, lo \in BOOLEAN}
+          \cup {Bin("+", Big(a, FALSE), Big(c, TRUE)) : a \in BigAs, c \in {1, 5}}
+          \cup {Bin("*", Big(a, FALSE), Lit(3, "d")) : a \in BigAs}
+DBig == {Bin("/", x, Big(b, FALSE)) : x \in BigNum, b \in BigBs}
+        \cup {Bin(o, Bin("/", x, Big(b, FALSE)), y) : o \in {"+", "-"}, x \in {Big(a, TRUE) : a \in BigAs}, b \in {16, 1048576},
+                                                      y \in {Lit(1, "d"), Name(1)}}
+AST(d) == DBig \cup (IF d = 1 THEN D1 ELSE IF d = 2 THEN D1 \cup D2 ELSE D1 \cup D2 \cup D3)
 
 Pow2(n) == CASE n = 0 -> 1 [] n = 1 -> 2 [] n = 2 -> 4 [] n = 3 -> 8 [] n = 4 -> 16 [] n = 5 -> 32 [] n = 6 -> 64
+
+\* is e one of the big-valued numerators / denominators?
+RECURSIVE IsBig(_)
+IsBig(e) == e.k = "big" \/ (e.k = "bin" /\ e.op \in {"+", "-", "*"} /\ (IsBig(e.l[1]) \/ IsBig(e.r[1])))
+
+\* <<hi, low>> with value hi * 2^40 + (IF low THEN 2^40 - 1 ELSE 0); defined
+\* only for the shapes in which the low bits add or cancel without carry
+RECURSIVE BigVal(_)
+BigVal(e) ==
+    CASE e.k = "big" -> <<e.v, e.b = "F">>
+      [] e.op = "+" -> <<BigVal(e.l[1])[1] + BigVal(e.r[1])[1], BigVal(e.l[1])[2] \/ BigVal(e.r[1])[2]>>
+      [] e.op = "-" -> <<BigVal(e.l[1])[1] - BigVal(e.r[1])[1], BigVal(e.l[1])[2] /\ ~BigVal(e.r[1])[2]>>
+      [] e.op = "*" -> <<BigVal(e.l[1])[1] * e.r[1].v, FALSE>>
+RECURSIVE BigOK(_)
+BigOK(e) ==
+    CASE e.k = "big" -> e.v >= 1
+      [] e.op = "+" -> BigOK(e.l[1]) /\ BigOK(e.r[1]) /\ ~(BigVal(e.l[1])[2] /\ BigVal(e.r[1])[2])
+      [] e.op = "-" -> BigOK(e.l[1]) /\ BigOK(e.r[1]) /\ (BigVal(e.r[1])[2] => BigVal(e.l[1])[2])
+                       /\ BigVal(e.l[1])[1] >= BigVal(e.r[1])[1]
+      [] e.op = "*" -> BigOK(e.l[1]) /\ e.r[1].k = "lit" /\ ~BigVal(e.l[1])[2]
+      [] OTHER -> FALSE
 
 RECURSIVE Eval(_)
 Eval(e) ==
     CASE e.k = "lit" -> e.v
+      \* (a * 2^40 + r) / (b * 2^40) = a \div b for 0 <= r < 2^40: the remainder
+      \* (a % b) * 2^40 + r stays below b * 2^40
+      [] e.k = "bin" /\ e.op = "/" /\ IsBig(e.l[1]) -> BigVal(e.l[1])[1] \div BigVal(e.r[1])[1]
       [] e.k = "name" -> NameVals[e.v]
       [] e.k = "neg" -> 0 - Eval(e.l[1])
       [] e.op = "+" -> Eval(e.l[1]) + Eval(e.r[1])
@@ -62,6 +105,8 @@ RECURSIVE WellFormed(_)
 WellFormed(e) ==
     CASE e.k \in {"lit", "name"} -> TRUE
       [] e.k = "neg" -> WellFormed(e.l[1])
+      [] e.k = "bin" /\ e.op = "/" /\ IsBig(e.l[1]) ->
+            BigOK(e.l[1]) /\ e.r[1].k = "big" /\ e.r[1].b = "0" /\ e.r[1].v >= 1
       [] OTHER ->
             /\ WellFormed(e.l[1]) /\ WellFormed(e.r[1])
             /\ (e.op = "/" => Eval(e.l[1]) >= 0 /\ Eval(e.r[1]) > 0)
@@ -73,7 +118,8 @@ HexDigits == <<"0", "1", "2", "3", "4", "5", "6", "7", "8", "9", "A", "B", "C", 
 RECURSIVE InBase(_, _)
 InBase(n, b) == IF n < b THEN HexDigits[n + 1] ELSE InBase(n \div b, b) \o HexDigits[(n % b) + 1]
 LitText(e) ==
-    CASE e.b = "d" -> ToString(e.v)
+    CASE e.k = "big" -> "0x" \o InBase(e.v, 16) \o (IF e.b = "F" THEN "FFFFFFFFFF" ELSE "0000000000")
+      [] e.b = "d" -> ToString(e.v)
       [] e.b = "x" -> "0x" \o InBase(e.v, 16)
       [] e.b = "o" -> IF e.v = 0 THEN "0" ELSE "0" \o InBase(e.v, 8)
 
@@ -82,14 +128,14 @@ PrecOf(e) == IF e.k = "bin" THEN Prec(e.op) ELSE IF e.k = "neg" THEN 4 ELSE 5
 
 RECURSIVE Full(_), Min(_)
 Full(e) ==
-    CASE e.k = "lit" -> LitText(e)
+    CASE e.k \in {"lit", "big"} -> LitText(e)
       [] e.k = "name" -> "K" \o ToString(e.v)
       [] e.k = "neg" -> "(-" \o Full(e.l[1]) \o ")"
       [] OTHER -> "(" \o Full(e.l[1]) \o " " \o e.op \o " " \o Full(e.r[1]) \o ")"
 
 Paren(s) == "(" \o s \o ")"
 Min(e) ==
-    CASE e.k = "lit" -> LitText(e)
+    CASE e.k \in {"lit", "big"} -> LitText(e)
       [] e.k = "name" -> "K" \o ToString(e.v)
       [] e.k = "neg" -> "-" \o (IF PrecOf(e.l[1]) < 4 THEN Paren(Min(e.l[1])) ELSE Min(e.l[1]))
       [] OTHER ->
